@@ -82,6 +82,8 @@ Definition ccall_of_v (v : V) : ccall :=
   if k =? 3 then CRemoveIndex (vint (vnth 1 v)) else
   if k =? 4 then CRemoveItem (obj_of_v (vnth 1 v)) else
   if k =? 5 then CAddMany (map pair_of_v (vlist (vnth 1 v))) else
+  if k =? 7 then CRemoveMany (map (fun e => if vint (vnth 0 e) =? 0 then RKIndex (vint (vnth 1 e)) else RKItem (obj_of_v (vnth 1 e)))
+                                  (vlist (vnth 1 v))) else
   CAssign (map pair_of_v (vlist (vnth 1 v))).
 Definition ckind_of (z : Z) : ckind := if z =? 0 then KEmg else if z =? 1 then KCal else KDat.
 Fixpoint c_trace (k : ckind) (b : cblock) (cs : list V) : list V :=
